@@ -80,7 +80,6 @@ impl<W: Write> zipcrypto::ZipCryptoWriter<W> {
 //@end
 }
 //@item src/write.rs | struct ZipRawValues
-//@item src/types.rs | const DEFAULT_VERSION
 
 pub mod zip_writer {
     use super::*;
